@@ -675,12 +675,12 @@ def enumerate_cases(ctx):
     exts = ('tsv', 'csv')
     ffs = (None, 'id', 'g', 'q', 'zz')
     ctx.scope('write_tsv/read_tsv structure: every row list of 1..2 rows over fields %s where each field is absent / None / an int, with >= 2 columns overall '
-              '(includes fully empty rows), x {tsv, csv} x first_field in %s (quick: 2-row lists with first_field None, and q for tsv, only)%s'
+              '(includes fully empty rows), x {tsv, csv} x first_field in %s (quick: 2-row lists only as tsv with first_field None and as csv with first_field q)%s'
               % (FIELDS, list(ffs), '' if quick else '; every 3-row list as tsv with first_field None and as csv with first_field q'))
     _tsv_structure(ctx, [1], exts, ffs)
     if quick:
-        _tsv_structure(ctx, [2], exts, (None,))
-        _tsv_structure(ctx, [2], ('tsv',), ('q',))
+        _tsv_structure(ctx, [2], ('tsv',), (None,))
+        _tsv_structure(ctx, [2], ('csv',), ('q',))
     else:
         _tsv_structure(ctx, [2], exts, ffs)
     if not quick:
